@@ -170,7 +170,7 @@ def check_case(case, res: Result, cli=False):
                     stB, cbB, _ = cbcase.analyse(root2, mB["dbs"], excludes=[])
                     hB, _ = cbcase.file_histograms(stB, cbB)
                     rB = attr_by_rel(hB, root2)
-                    rel_spelled = any("ext/" in json.dumps(f["items"]) for f in case["tree"].values())
+                    rel_spelled = any("ext/" in json.dumps(f["items"]) for f in case["tree"].values()) or any("ext/" in t for t in (case.get("symlinks") or {}).values())
                     if not rel_spelled:
                         for f in sorted(set(r0)):
                             if f in rB and rB[f][2] != r0[f][2]:
